@@ -12,8 +12,8 @@ LEVEL = "proof"
 TRUSTED = []
 ASSUMPTIONS = ["node identities are unique within a tree (C01)"]
 # kind "c" is a SUPERSTRING of kind "a" (a test by `in` instead of `==` confuses them); absent kinds: unrelated, a superstring and a substring
-LONG = {"a": "kind-a", "b": "kind-b", "c": "kind-a-x"}
-KINDS = [None, "kind-a", "kind-b", "kind-a-x", "zzz", "kind-b-y", "kind"]
+LONG = {"a": "kind-a", "b": "kind-b", "c": "kind-a-x", "d": ""}      # the empty string is a kind like any other
+KINDS = [None, "kind-a", "kind-b", "kind-a-x", "zzz", "kind-b-y", "kind", ""]
 
 
 def long_kinds(spec):
@@ -209,14 +209,14 @@ def run(ctx):
         n = ctx.rng.randrange(3, 9)
         shape = gen.random_shape(ctx.rng, n, deep_bias=0.3)
         cnt = itertools.count()
-        spec = gen.label_forest(shape, ({"a": next(cnt) % 12, "k": ctx.rng.choice("abc"), "did": 8000 + next(cnt)} for _ in range(n)))
+        spec = gen.label_forest(shape, ({"a": next(cnt) % 12, "k": ctx.rng.choice("abcabd"), "did": 8000 + next(cnt)} for _ in range(n)))
         mut_case(ctx, out, spec, ctx.rng.randrange(1 << 30), 5, k)
         out.dist["query_mutate_query"] += 1
     for _ in range(400 if ctx.thorough else 80):
         n = ctx.rng.randrange(n_ex + 1, 14)
         shape = gen.random_shape(ctx.rng, n, deep_bias=0.3)
         cnt = itertools.count()
-        spec = gen.label_forest(shape, ({"a": next(cnt) % 12, "k": ctx.rng.choice("abc"), "did": 7000 + next(cnt)} for _ in range(n)))
+        spec = gen.label_forest(shape, ({"a": next(cnt) % 12, "k": ctx.rng.choice("abcabd"), "did": 7000 + next(cnt)} for _ in range(n)))
         check_tree(ctx, out, spec, "rnd")
         check_tree(ctx, out, spec, "rnd-lo", levelorder=True)
         out.dist["random_tree"] += 1
@@ -224,6 +224,7 @@ def run(ctx):
 
 
 CORPUS = [
+    [((0, "a"), []), ((1, "d"), []), ((2, "a"), []), ((3, "d"), []), ((4, "b"), [((5, "d"), []), ((6, "a"), []), ((7, "d"), [])])],
     [((0, "a"), []), ((1, "b"), []), ((2, "a"), []), ((3, "b"), [])],
     [((0, "a"), [((1, "a"), []), ((2, "b"), []), ((3, "a"), [])])],
 ]
